@@ -254,6 +254,8 @@ class GeneralThermodynamics:
             self._drivingForce = self._getDrivingForceTangent
         else:
             raise Exception('Driving force method must be either \'approximate\', \'sampling\', \'tangent\' or \'curvature\'')
+        #Composition sets cached by one method are not what another method expects (precipitate only vs. matrix and precipitate)
+        self._compset_cache_df = {}
 
     def setDFSamplingDensity(self, density):
         '''
